@@ -243,6 +243,19 @@ Definition weak_int : ty := ST.mkTy ST.DI32 true.      (* a Python int such as 2
 (* type of cos(2 * angles) *)
 Definition trig_ty (x64 : bool) (t : ty) : ty := ST.to_inexact x64 (ST.promote2 x64 weak_int t).
 
+(* The scalar construction paths of AbstractLinearOperator.  __rmul__ (k * A; A * k, -A = (-1) * A and
+   A - B = A + (-1) * B go the same way): HomothetyOperator(jnp.asarray(k), A.out_structure()) @ A - the scalar
+   KEEPS its type (a Python scalar stays weakly typed, so that every leaf of a mixed-precision output keeps its
+   own dtype).  __truediv__ (A / k): HomothetyOperator(1 / jnp.asarray(k), ...) - true division of the weakly
+   typed 1 by k.  `scalar_param_ty`: type of the value the new scalar operator stores, from the type of k. *)
+Inductive spath := SMul | SDiv.
+Definition scalar_param_ty (x64 : bool) (p : spath) (t : ty) : ty :=
+  match p with
+  | SMul => t
+  | SDiv => ST.to_inexact x64 (ST.promote2 x64 weak_int t)
+  end.
+Definition scalar_pinfo (x64 : bool) (p : spath) (t : ty) : pinfo := mkPinfo (scalar_param_ty x64 p t) [] [].
+
 (* q * c -+ u * s for Stokes leaves q, u and trigonometric factors of type t and shape ash *)
 Definition rot_leaf (x64 : bool) (t : ty) (ash : list nat) (q u : sds) : option sds :=
   match sd_mulb x64 t ash q, sd_mulb x64 t ash u with
